@@ -490,6 +490,8 @@ func writeEvidence(id, tier string, seed int, spec *checkSpec, hres []harnessRes
 		"ssa_instructions_executed": all.steps,
 		"violations_detail":    vio,
 		"known_findings_hit":   kf,
+		"reach_labels":         all.reached,
+		"trusted_base":         []string{"gosym interpreter (/verif/engine)", "z3 4.8.12", "harness models named under stubs", "go/packages + go/ssa (x/tools v0.29.0)"},
 		"stubs":                spec.Stubs,
 		"outside_bounds":       spec.Out,
 	}
